@@ -93,7 +93,20 @@ def build(node, cache=None, rename_kw=True):
     if id(node) in cache:
         return cache[id(node)]
     if node.kind == "leaf":
-        if node.empty:
+        if node.empty == "matrix":
+            obj = L.Model(Smatrix=np.array([[0, 1], [1, 0]], complex))          # a matrix, but no pins
+        elif node.empty == "solved":
+            inner = L.Solver()
+            inner.add_structure(L.Structure(model=L.Model(pin_dic={L.Pin("u"): 0, L.Pin("v"): 1}, Smatrix=np.array([[0, 1], [1, 0]], complex))))
+            import logging
+            lg = logging.getLogger("lekkersim")
+            old = lg.level
+            lg.setLevel(logging.ERROR)
+            try:
+                obj = inner.solve()                                             # nothing exposed: a solved model without pins
+            finally:
+                lg.setLevel(old)
+        elif node.empty:
             obj = L.Model()
         elif node.S1 is None:
             n = len(node.pins)
